@@ -46,25 +46,26 @@ type harness struct {
 
 // observation is what one execution of one configuration showed.
 type observation struct {
-	Verdict   string        `json:"verdict"` // rejected | accepted | violation | ambiguous
-	Class     string        `json:"class,omitempty"`
-	What      string        `json:"what,omitempty"`
-	Exit      int           `json:"exit_code"`
-	Signal    string        `json:"signal,omitempty"`
-	Message   string        `json:"message,omitempty"`
-	NamedBy   string        `json:"named_by,omitempty"`
-	Groups    []groupResult `json:"groups,omitempty"`
-	BadLines  []string      `json:"bad_output_lines,omitempty"`
-	Queries   int           `json:"queries"`
-	Answered  int           `json:"answered"`
-	Probes    []string      `json:"size_probes,omitempty"`
-	ConnLimit *limitResult  `json:"connection_limit_script,omitempty"`
-	StartMS   int64         `json:"start_ms"`
-	TrafficMS int64         `json:"traffic_ms"`
-	StopMS    int64         `json:"stop_ms"`
-	Config    string        `json:"-"`
-	Output    string        `json:"-"`
-	PortRetry int           `json:"port_retries,omitempty"`
+	Verdict       string        `json:"verdict"` // rejected | accepted | violation | ambiguous
+	Class         string        `json:"class,omitempty"`
+	What          string        `json:"what,omitempty"`
+	Exit          int           `json:"exit_code"`
+	Signal        string        `json:"signal,omitempty"`
+	Message       string        `json:"message,omitempty"`
+	NamedBy       string        `json:"named_by,omitempty"`
+	Groups        []groupResult `json:"groups,omitempty"`
+	BadLines      []string      `json:"bad_output_lines,omitempty"`
+	Queries       int           `json:"queries"`
+	Answered      int           `json:"answered"`
+	Probes        []string      `json:"size_probes,omitempty"`
+	FaultDNSCheck int           `json:"dnscheck_queries_under_failing_backend,omitempty"`
+	ConnLimit     *limitResult  `json:"connection_limit_script,omitempty"`
+	StartMS       int64         `json:"start_ms"`
+	TrafficMS     int64         `json:"traffic_ms"`
+	StopMS        int64         `json:"stop_ms"`
+	Config        string        `json:"-"`
+	Output        string        `json:"-"`
+	PortRetry     int           `json:"port_retries,omitempty"`
 }
 
 const (
@@ -234,6 +235,17 @@ func rateTouched(ms []mutation) bool {
 	return false
 }
 
+// backendMatrix: the case belongs to the backend matrix (it mutates the
+// profiles switch, or has a fault of the key-value backend).
+func backendMatrix(ms []mutation) bool {
+	for _, m := range ms {
+		if m.Kind == "bool" || m.Kind == "fault" {
+			return true
+		}
+	}
+	return false
+}
+
 // timeTouched: a duration was set to one nanosecond.  Operations bounded by it
 // time out by design, so answers are not required (crashes still count).
 func timeTouched(ms []mutation) bool {
@@ -337,7 +349,7 @@ func (h *harness) attempt(ms []mutation, tag string) (obs *observation, collided
 	sink := &outSink{}
 	cmd := exec.Command(h.bin)
 	cmd.Dir = dir
-	cmd.Env = childEnv(h.fx, dir, loc.DebugPort)
+	cmd.Env = childEnv(h.fx, dir, loc.DebugPort, ms)
 	cmd.Stdout, cmd.Stderr = sink, sink
 	t0 := time.Now()
 	if err = cmd.Start(); err != nil {
@@ -411,6 +423,8 @@ func (h *harness) attempt(ms []mutation, tag string) (obs *observation, collided
 	if v, ok := treeGet(tree, cfgPath{key("check"), key("kv"), key("type")}); ok && fmt.Sprint(v) == "cache" {
 		sp.DNSCheckOK = true
 	}
+	sp.KVFault = kvFault(ms)
+	sp.DNSCheckAll = backendMatrix(ms)
 	tTraffic := time.Now()
 	if v, ok := treeGet(tree, cfgPath{key("dns"), key("max_udp_response_size")}); ok {
 		sp.CfgUDPSize, _ = sizeBytes(v)
@@ -438,6 +452,9 @@ func (h *harness) attempt(ms []mutation, tag string) (obs *observation, collided
 	defer func() { obs.StopMS = time.Since(tStop).Milliseconds() }()
 	for _, g := range obs.Groups {
 		obs.Answered += g.Answered
+		if g.Group == "dnscheck-failing-backend" {
+			obs.FaultDNSCheck += g.Sent
+		}
 		if g.Probe != "" && g.Require == "all" {
 			obs.Probes = append(obs.Probes, g.Probe)
 		}
@@ -492,18 +509,21 @@ func isWordChar(c byte) bool {
 // cross-field constraint (doc/configuration.md); a rejection may name any of
 // them.
 var participants = map[string][]string{
-	"stop":            {"resume"},
-	"resume":          {"stop"},
-	"type":            {"ecs_size", "ttl"},
-	"ecs_size":        {"type"},
-	"ttl":             {"type"},
-	"https_port":      {"tls_port", "doh_path", "ports"},
-	"tls_port":        {"https_port", "ports"},
-	"quic_port":       {"ports"},
-	"id":              {"filtering_group"},
-	"ids":             {"rule_lists", "filter list id"},
-	"protocol":        {"dnscrypt", "tls", "bind_interfaces"},
-	"server_groups":   {"tls", "servers", "dnscrypt"},
+	"stop":          {"resume"},
+	"resume":        {"stop"},
+	"type":          {"ecs_size", "ttl"},
+	"ecs_size":      {"type"},
+	"ttl":           {"type"},
+	"https_port":    {"tls_port", "doh_path", "ports"},
+	"tls_port":      {"https_port", "ports"},
+	"quic_port":     {"ports"},
+	"id":            {"filtering_group"},
+	"ids":           {"rule_lists", "filter list id"},
+	"protocol":      {"dnscrypt", "tls", "bind_interfaces"},
+	"server_groups": {"tls", "servers", "dnscrypt"},
+	// documented: the tls object is required iff a server of the group uses an
+	// encrypted protocol.
+	"servers": {"tls"},
 }
 
 // namesProperty reports whether the rejection message identifies one of the
@@ -785,6 +805,13 @@ func (h *harness) account(cr caseResult, found *findings) (class string) {
 	r.Bucket("queries_sent", int64(obs.Queries))
 	r.Bucket("queries_answered", int64(obs.Answered))
 	r.Bucket("effective_size_probes_applied", int64(len(obs.Probes)))
+	r.Bucket("dnscheck_queries_under_failing_backend", int64(obs.FaultDNSCheck))
+	if (c.Stream == "list" || c.Stream == "list-all") && obs.Verdict != "ambiguous" {
+		r.Bucket("list_cases_decided", 1)
+	}
+	if c.Stream == "backend-matrix" && obs.Verdict != "ambiguous" {
+		r.Bucket("backend_matrix_cases_decided", 1)
+	}
 	if c.Stream == "structural" && obs.Verdict != "ambiguous" {
 		r.Bucket("structural_cases_decided", 1)
 		r.Bucket("structural:"+obs.Verdict, 1)
@@ -903,6 +930,7 @@ func TestCheck(t *testing.T) {
 	r.Assume("queries of the rate-limited loopback clients are required only while the configured limits allow them; when a rate-limit parameter is mutated only the first query of a fresh client is required")
 	r.Assume("connection_limit.stop/resume of 0 or 1 is below the documented minimum (more than the number of bound addresses): stream transports are then not required to answer")
 	r.Assume("effective-value probe: a UDP answer of known size must be complete when both the advertised EDNS buffer and dns.max_udp_response_size as written in the file exceed it by 64 bytes; skipped when socket buffer sizes or 1ns durations are mutated")
+	r.Assume("a failing key-value backend is a fault of the environment: the configuration is still accepted, the DNS-check query must still be answered and nothing may panic")
 	r.Assume("connection limit: sockets that are accepting count as active (documented); when stop <= listeners+3 and resume < listeners the ordinary stream groups are not required, and the dedicated script (which keeps its connections open and so controls the count) requires min(listeners used, stop-resume) listeners to serve after the count has fallen to resume")
 	r.Assume("an unanswered query is retried alone (3 s, then 8 s) and every violation is confirmed by a second, separate execution of the same file")
 
@@ -944,6 +972,14 @@ func TestCheck(t *testing.T) {
 	fields, skipped := catalogue(h.baseLoc.Tree)
 	spellFs := enumSpellingFields(fields)
 	spellFs = append(spellFs, structuralFields(h.baseLoc.Tree)...) // for C20_ONLY / replay look-up
+	spellFs = append(spellFs, listFields(h.baseLoc.Tree)...)
+	for _, ms := range backendMatrixCases(h.baseLoc.Tree) {
+		for _, m := range ms {
+			if m.Kind == "bool" || m.Kind == "fault" {
+				spellFs = append(spellFs, field{Path: m.Path, Kind: m.Kind, Values: []mutValue{m.Value}})
+			}
+		}
+	}
 	sectionFs := sectionFields(h.baseLoc.Tree)
 	r.Bucket("sections_removed_or_nulled", int64(len(sectionFs)))
 	r.Extra("numeric_scalars_not_mutated", skipped)
@@ -1051,6 +1087,15 @@ func TestCheck(t *testing.T) {
 		}
 	}
 	r.Bucket("cases_structural_server_groups", int64(nStruct))
+	listFs := listFields(h.baseLoc.Tree)
+	nList := 0
+	for _, f := range listFs {
+		for _, v := range f.Values {
+			nList++
+			singles = append(singles, caseSpec{Stream: "list", Idx: len(singles), Muts: []mutation{{Path: f.Path, Kind: f.Kind, Value: v}}})
+		}
+	}
+	r.Bucket("cases_list", int64(nList))
 	nSpell := 0
 	for _, f := range enumSpellingFields(fields) {
 		for _, v := range f.Values {
@@ -1134,6 +1179,14 @@ func TestCheck(t *testing.T) {
 		combos = append(combos, caseSpec{Stream: "connlimit", Idx: i, Muts: ms})
 	}
 	r.Bucket("cases_connlimit", int64(len(clCases)))
+	for i, ms := range listAllCases(listFs) {
+		combos = append(combos, caseSpec{Stream: "list-all", Idx: i, Muts: ms})
+		r.Bucket("cases_list_all_occurrences", 1)
+	}
+	for i, ms := range backendMatrixCases(h.baseLoc.Tree) {
+		combos = append(combos, caseSpec{Stream: "backend-matrix", Idx: i, Muts: ms})
+		r.Bucket("cases_backend_matrix", 1)
+	}
 	depCases := enumDependentCases(spellFs, fields)
 	for i, ms := range depCases {
 		combos = append(combos, caseSpec{Stream: "enum-dependent", Idx: i, Muts: ms})
@@ -1157,6 +1210,12 @@ func TestCheck(t *testing.T) {
 	r.Require("queries_answered", 10000)
 	r.Require("effective_size_probes_applied", 100)
 	r.Require("connlimit_scripts_run", 6)
+	r.Require("cases_list", 60)
+	r.Require("cases_list_all_occurrences", 10)
+	r.Require("list_cases_decided", 70)
+	r.Require("cases_backend_matrix", 20)
+	r.Require("backend_matrix_cases_decided", 20)
+	r.Require("dnscheck_queries_under_failing_backend", 12)
 	r.Require("cases_structural_server_groups", 8)
 	r.Require("structural_cases_decided", 8)
 	r.Require("cases_enum_spelling", 40)
